@@ -73,8 +73,16 @@ func env() []string {
 // altRepo is set (env VERIF_REPO) only for mutation testing of the machinery itself: the child
 // is then built against that scratch worktree instead of /repo, into a separate bin/work/evidence
 // area, so that /repo is not disturbed. Registered checks never set it.
+var myBin = map[string]string{}
 var altRepo = ""
 var altTag = ""
+
+func childBin(mode string) string {
+	if b, ok := myBin[mode]; ok {
+		return b
+	}
+	return binName(mode)
+}
 
 func binName(mode string) string {
 	dir := filepath.Join(root, "bin")
@@ -122,14 +130,18 @@ func build(mode string) error {
 		}
 		args = append(args, "-modfile="+mf)
 	}
-	args = append(args, "-tags", tags, "-o", binName(mode), "./cmd/vchild")
+	tmp := fmt.Sprintf("%s.tmp.%d", binName(mode), os.Getpid())
+	args = append(args, "-tags", tags, "-o", tmp, "./cmd/vchild")
 	cmd := exec.Command("go", args...)
 	cmd.Dir = filepath.Join(root, "harness")
 	cmd.Env = env()
 	out, err := cmd.CombinedOutput()
 	if err != nil {
+		os.Remove(tmp)
 		return fmt.Errorf("go %s: %v\n%s", strings.Join(args, " "), err, out)
 	}
+	// each invocation runs the binary it built itself (private copy), and also publishes it
+	myBin[mode] = tmp
 	return nil
 }
 
@@ -178,7 +190,7 @@ func runChild(prop string, job Job, tier string, seed int64, batch int, only str
 		out := filepath.Join(work, tag+".jsonl")
 		logp := filepath.Join(work, tag+".log")
 		os.Remove(out)
-		args := []string{"-s", "QUIT", "-k", "20", strconv.Itoa(job.timeout(tier)), binName(job.Mode),
+		args := []string{"-s", "QUIT", "-k", "20", strconv.Itoa(job.timeout(tier)), childBin(job.Mode),
 			"-w", job.Workload, "-tier", tier, "-seed", strconv.FormatInt(seed, 10),
 			"-batch", strconv.Itoa(batch), "-nb", strconv.Itoa(job.batches(tier)), "-mode", job.Mode, "-out", out}
 		if only != "" {
@@ -445,6 +457,7 @@ func main() {
 	os.RemoveAll(work)
 	os.MkdirAll(work, 0755)
 	os.MkdirAll(evDir, 0755)
+	os.MkdirAll(filepath.Join(root, "bin"), 0755)
 	os.MkdirAll(rpDir, 0755)
 
 	jobs := plan.Jobs
@@ -514,6 +527,9 @@ func main() {
 	}
 	wg.Wait()
 
+	for m, tmp := range myBin {
+		os.Rename(tmp, binName(m))
+	}
 	// 3. judge
 	findings := loadFindings()
 	total := &kit.Summary{Counters: map[string]int64{}}
